@@ -145,7 +145,11 @@ def do_slices(unit, scratch, mutate=None):
             if mutate and mutate[0] == s['name']:
                 if body.count(mutate[1]) < 1:
                     raise Undecided('mutant pattern not found in %s: %r' % (s['name'], mutate[1]))
-                body = body.replace(mutate[1], mutate[2], 1)
+                nth = mutate[3] if len(mutate) > 3 else 0
+                parts = body.split(mutate[1])
+                if len(parts) <= nth + 1:
+                    raise Undecided('mutant occurrence %d not found in %s' % (nth, s['name']))
+                body = mutate[1].join(parts[:nth + 1]) + mutate[2] + mutate[1].join(parts[nth + 1:])
             body2, log1 = slicer.apply_R1(body)
             body2, log5 = slicer.apply_R5(body2, s.get('R5'))
             if s.get('ret_real'):
